@@ -25,11 +25,17 @@ def run(tier, seed, scale):
         Phase("dbg", "c20", "dbg", 12000 if q else 200000, procs=3 if q else 6),
         Phase("tsan", "c20", "tsan", 1500 if q else 30000, procs=3 if q else 8, timeout=1500),
     ]
+    # suspension at the outermost level of an application thread (directly in its execute() functor): the owner is recalled to its stack
+    phases.append(Phase("rel-outer", "c20", "rel", 6000 if q else 80000, procs=3 if q else 6, args=["--mode", "outer"]))
+    phases.append(Phase("dbg-outer", "c20", "dbg", 1500 if q else 20000, procs=1 if q else 2, args=["--mode", "outer"]))
+    phases.append(Phase("tsan-outer", "c20", "tsan", 600 if q else 8000, procs=2 if q else 4, args=["--mode", "outer"], timeout=1500))
     phases.append(Phase("asan", "c20", "asan", 1500 if q else 30000, procs=2 if q else 6, timeout=1500))      # address+undefined: thread-based coroutines, creation/destruction of used coroutines
     run_phases(chk, phases, seed, scale)
     s = chk.stats
     early, normal = s.get("resume_arrived_before_suspension_finished(early)", 0), s.get("resume_found_suspended(normal)", 0)
     chk.require(early > 2000 and normal > 2000, "both resume paths must be exercised (early=%d normal=%d)" % (early, normal))
+    chk.require(s.get("outer_suspensions", 0) > (5000 if q else 60000) * min(1.0, scale) and s.get("outer_owner_busy_with_an_enqueued_task_when_resumed", 0) > (2000 if q else 25000) * min(1.0, scale),
+                "outermost-level suspensions: %d (owner busy when resumed: %d)" % (s.get("outer_suspensions", 0), s.get("outer_owner_busy_with_an_enqueued_task_when_resumed", 0)))
     chk.require(s.get("points.foreign-after-second-task-ran", 0) > 500, "too few 'other work while suspended' points")
     chk.require(s.get("scenarios_waiting_inside_isolate_in_a_one_slot_arena", 0) > 1000, "only %d scenarios waited inside isolate in a one-slot arena" % s.get("scenarios_waiting_inside_isolate_in_a_one_slot_arena", 0))
     chk.extra["scenarios_waiting_inside_isolate[all,one-slot arena]"] = [s.get("scenarios_waiting_inside_isolate", 0), s.get("scenarios_waiting_inside_isolate_in_a_one_slot_arena", 0)]
